@@ -289,6 +289,9 @@ func (P *Prog) EvalTablesClause(c *Clause, unit string) ([]*Obligation, error) {
 		return nil, err
 	}
 	what := strings.TrimSpace(c.Text)
+	if strings.HasPrefix(what, "terminal ") {
+		return P.evalTerminal(c, unit, tb, strings.Fields(what)[1:])
+	}
 	if what != "loadable" {
 		return nil, fmt.Errorf("%s:%d: unknown tables statement %q", c.File, c.Line, what)
 	}
@@ -352,6 +355,67 @@ func TestGocvReplayLoadable(t *testing.T) {
 	}
 }
 `, s, s)}
+		}
+		out = append(out, o)
+	}
+	return out, nil
+}
+
+// evalTerminal decides `tables[label] terminal <machine name>...`: in the named machines every state whose name
+// says cancelled (canceled / cancelled / _error / _timeout) has transitions to cancelled states only, in every
+// machine, and is not the entry state of a machine: a cancelled round stays cancelled. One obligation per such state.
+func (P *Prog) evalTerminal(c *Clause, unit string, tb *Tables, machines []string) ([]*Obligation, error) {
+	want := map[string]bool{}
+	for _, m := range machines {
+		want[m] = true
+	}
+	isCancelled := func(s string) bool {
+		return strings.Contains(s, "cancel") || strings.HasSuffix(s, "_error") || strings.HasSuffix(s, "_timeout")
+	}
+	states := map[string]string{}
+	found := map[string]bool{}
+	for _, m := range tb.Machines {
+		if !want[m.Name] {
+			continue
+		}
+		found[m.Name] = true
+		for _, t := range m.Transitions {
+			for _, s := range []string{t.Source, t.Dst} {
+				if isCancelled(s) {
+					states[s] = m.Name
+				}
+			}
+		}
+	}
+	for m := range want {
+		if !found[m] {
+			return nil, fmt.Errorf("%s:%d: no machine named %q in the dumped tables", c.File, c.Line, m)
+		}
+	}
+	var names []string
+	for s := range states {
+		names = append(names, s)
+	}
+	sort.Strings(names)
+	if len(names) == 0 {
+		return nil, fmt.Errorf("%s:%d: no cancelled state found in %v", c.File, c.Line, machines)
+	}
+	label := strings.Join(c.Labels, ",")
+	var out []*Obligation
+	for _, s := range names {
+		o := &Obligation{Func: unit, Name: "[" + label + ":" + s + "]", Kind: "ground", Detail: "cancelled state " + s + " of " + states[s] + " can only move to cancelled states", Clause: c, Goal: "true", Guard: "true",
+			Solver: "table-eval", Result: "unsat", Site: token.Position{Filename: c.File, Line: c.Line}}
+		for _, m := range tb.Machines {
+			for _, t := range m.Transitions {
+				if t.Source == s && !isCancelled(t.Dst) {
+					o.Result = "sat"
+					o.Model = fmt.Sprintf("machine %s has a transition from cancelled state %q by event %q to %q", m.Name, s, t.Event, t.Dst)
+				}
+			}
+			if m.InitialState == s {
+				o.Result = "sat"
+				o.Model = fmt.Sprintf("cancelled state %q is the initial state of machine %s", s, m.Name)
+			}
 		}
 		out = append(out, o)
 	}
